@@ -82,6 +82,16 @@ def _more(o, a, b):
         a.axes["x"].set(values=[7, 8, 9], inplace=False)
         a.axes["x"].set(name="u", inplace=False)
         a.axes["y"].set(values={1.0: 5.0}, inplace=False)
+    elif o == "setna_mask_list":
+        # setna with a list whose entries are boolean masks (DimArray / ndarray) and values: the masks are operands too
+        m1, m2 = a > 4, a.values < 2
+        snap = (deep_snapshot(m1), m2.tolist())
+        a.setna([m1, 4.])
+        a.setna([m2, 6., m1])
+        a.setna([m1, m2])
+        a.setna(m1)
+        if (deep_snapshot(m1), m2.tolist()) != snap:
+            raise AssertionError("setna changed a boolean mask passed to it")
     elif o == "fillna_int":
         a.fillna(0)
     elif o == "setna_int_value":
